@@ -34,6 +34,18 @@ class Field:
                 self.default = None
         elif v is not None:
             self.default = v
+        if v is None and isinstance(node.annotation, ast.Subscript) and ast.unparse(node.annotation.value).split(".")[-1] == "Annotated" \
+                and isinstance(node.annotation.slice, ast.Tuple):
+            # x: Annotated[T, Field(default_factory=list)]: the default lives in the annotation's metadata
+            for extra in node.annotation.slice.elts[1:]:
+                if isinstance(extra, ast.Call) and ast.unparse(extra.func) in ("Field", "pydantic.Field", "pd.Field", "field", "dataclasses.field"):
+                    kw = {k.arg: k.value for k in extra.keywords if k.arg}
+                    if "default" in kw or "default_factory" in kw or extra.args:
+                        self.field_kwargs = {**kw, **self.field_kwargs}
+                        self.default = kw.get("default", extra.args[0] if extra.args else None)
+                        self.default_factory = kw.get("default_factory")
+                        self.has_default = (self.default is not None or self.default_factory is not None) and not (
+                            isinstance(self.default, ast.Constant) and self.default.value is Ellipsis)
 
     def flag(self, name: str, default: bool = True) -> bool:
         v = self.field_kwargs.get(name)
